@@ -388,9 +388,10 @@ def family_calls(rng, tier):
             stmts[-1] = e.render({p: pos[p] for p in ps if p in pos})
             unbound_param = any(p not in pos for p in ps)
             same = [3, 4, 5, 6] if not unbound_param else [3, 4, 5]
-            if ar > 1 and any(v.startswith('[[') for v in argv):
-                # a ragged nested list literal keeps Python lists as elements (literal representation, outside C03):
-                # the @ form cannot pass these values
+            if ar > 1 and any(v.startswith('[') for v in argv):
+                # several lists inside one list literal change representation (a ragged nested literal keeps Python lists
+                # as elements, a mixed one turns integer rows into object rows): literal representation is outside C03,
+                # so the @ form is used with one argument or with atoms only
                 stmts[5] = '0'
                 same.remove(5)
             yield stmts, {"family": "calls", "same": same, "no_change_from": 3}
@@ -438,8 +439,9 @@ def family_proj(rng, tier):
     """every chain of projections of arity 2 and 3 (all hole patterns, all fill orders) that the three
     resolution passes admit, ended by a full call; through variables, through @, and with a lambda as base"""
     vals_pool = ['1', '2', '3', '"ab"', '[4 5]', '0cq', '7', '8', '9']
-    fdefs = {3: '{(,x),(,y),,z}', 2: '{(,x),,y}'}
-    for ar in (2, 3):
+    for ar, variant in ((2, 0), (3, 0), (2, 1), (3, 1)):
+        # variant 1: monadic operands are not counted by get_fn_arity, so these bodies have parser arity 0
+        fdefs = {3: '{x,y,z}', 2: '{x,y}'} if variant == 0 else {3: '{(,x),(,y),,z}', 2: '{(,x),,y}'}
         for lambda_base in (False, True):
             maxproj = 3 if lambda_base else 2
             def chains(holes, depth):
